@@ -12,6 +12,7 @@ or any value of the decoded structure (all sub-objects optional, all leaves
 arbitrary) — in every state of the sender's connection.
 -/
 import SigModel.Lemmas.ShapesClient
+import SigModel.Model.ShapesMedia
 
 namespace SigModel.ShapesClient
 open SigModel.Generated.ShapesClient
@@ -25,6 +26,17 @@ theorem C10_derefs_accounted : derefs.all (fun d => sites.contains d) = true := 
 /-- Unchecked type assertions and index expressions over client-controlled values are the known ones. -/
 theorem C10_assertions_known :
     typeAssertions = knownTypeAssertions ∧ indexExprs = knownIndexExprs := by decide
+
+/-- The media code behind the handlers (Janus client, proxy MCU client, media proxy), where the payload
+of a client message travels as plain maps and interface values: every single-value type assertion, every
+index / slice expression that is not a map lookup, every write to a map that may be nil and every
+unguarded dereference below a client-message parameter in those files is one of the reviewed ones
+(`Model/ShapesMedia.lean`, duplicates counted). -/
+theorem C10_media_tables_reviewed :
+    Generated.ShapesMedia.mediaTypeAssertions = ShapesMedia.reviewedTypeAssertions ∧
+    Generated.ShapesMedia.mediaIndexExprs = ShapesMedia.reviewedIndexExprs ∧
+    Generated.ShapesMedia.mediaMapWrites = ShapesMedia.reviewedMapWrites ∧
+    Generated.ShapesMedia.mediaDerefs = ShapesMedia.reviewedDerefs := by decide
 
 /-- Decode and validate precede every use; only `hello` is dispatched without a
 session; binary frames are answered; the read limit is the constant; the
